@@ -41,7 +41,8 @@ def rule_make_when_absent(chk, rid):
                "make(key) can run although the key is already materialised (re-evaluation on every read)", mk[0], m, key="guard")
         served = [r for r in returns_of(fn) if isinstance(r.value, ast.Call) and U(r.value) == f"self.substore.get_bytes({kp})"]
         after = [r for r in served if cfg.can_reach(cfg.node_of(mk[0]), cfg.node_of(r))]
-        before = [r for r in served if any(txt == f"self.substore.contains({kp})" and pol for _, txt, pol, _ in dominating_literals(cfg, cfg.node_of(r)))]
+        # some serving return is reachable without passing the make call (the make itself is guarded by `not contains`, above)
+        before = [r for r in served if cfg.node_of(r) in cfg.reachable(cfg.entry, avoid=[cfg.node_of(mk[0])])]
         chk.ob(rid, f"{ci.qual}.get_bytes", bool(before), "a present key is served from the sub-store without evaluation", fn, m, key="serve-present")
         chk.ob(rid, f"{ci.qual}.get_bytes", bool(after), "after make the bytes are read back from the sub-store", fn, m, key="serve-after-make")
         chk.ob(rid, f"{ci.qual}.get_bytes", U(mk[0].args[0]) == kp, "the requested key is the one made", mk[0], m, key="same-key")
@@ -90,7 +91,24 @@ def rule_life_cycle(chk, rid):
     ok = len(rdy) == 1 and any("Status.NONE" in txt and pol for _, txt, pol, _ in dominating_literals(cfg, cfg.node_of(rdy[0])))
     chk.ob(rid, f"{ci.qual}.make", ok, "status becomes ready only if the evaluation left it at NONE", fn, m, key="status-ready")
     exc = [c for c in calls_in(fn, tail="exception") if call_recv(c) == "m"]
-    ok = len(exc) == 1 and any(txt == "is_error" and pol for _, txt, pol, _ in dominating_literals(cfg, cfg.node_of(exc[0])))
+    def failure_flag(txt, pol):
+        """the literal says 'the recipe raised': a local that is given a truthy value only inside an except handler of this function"""
+        v, want_truthy = (txt, pol) if txt.isidentifier() else (txt[:-8], not pol) if txt.endswith(" is None") and txt[:-8].isidentifier() else (None, None)
+        if v is None or not want_truthy:
+            return False
+        in_handler = {id(x) for t_ in body_walk(fn) if isinstance(t_, ast.Try) for h in t_.handlers for st_ in h.body for x in ast.walk(st_)}
+        defs = [s_ for s_ in body_walk(fn) if isinstance(s_, ast.Assign) and any(U(tg) == v for tg in s_.targets)]
+        if not defs:
+            return False
+        for d in defs:
+            falsy = isinstance(d.value, ast.Constant) and not d.value.value
+            if id(d) in in_handler:
+                if falsy:
+                    return False
+            elif not falsy:
+                return False
+        return any(id(d) in in_handler for d in defs)
+    ok = len(exc) == 1 and any(failure_flag(txt, pol) for _, txt, pol, _ in dominating_literals(cfg, cfg.node_of(exc[0])))
     chk.ob(rid, f"{ci.qual}.make", ok, "a failing recipe leaves error metadata", fn, m, key="error-metadata")
     dep = [c for c in calls_in(fn, tail="add_recipe_dependency")]
     chk.ob(rid, f"{ci.qual}.make", len(dep) == 1 and U(dep[0].args[0]) == "recipe", "the recipe (name, version) is recorded as a dependency", fn, m, key="dependency")
